@@ -132,6 +132,7 @@ impl InlineParser {
     }
 
     pub fn add_rule<T: InlineRule>(&mut self) -> RuleBuilder<RuleFn> {
+        self.text_impl = OnceCell::new();
         if T::MARKER != '\0' {
             let charvec = self.text_charmap.entry(T::MARKER).or_insert(vec![]);
             charvec.push(TypeKey::of::<T>());
@@ -146,6 +147,7 @@ impl InlineParser {
     }
 
     pub fn remove_rule<T: InlineRule>(&mut self) {
+        self.text_impl = OnceCell::new();
         if T::MARKER != '\0' {
             let mut charvec = self.text_charmap.remove(&T::MARKER).unwrap_or_default();
             charvec.retain(|x| *x != TypeKey::of::<T>());
